@@ -326,6 +326,23 @@ class Universe:
             s.T = T
             if seenT != T + 1.0 or backT != T:
                 return f"cached view {p!r} does not share the thermal condition of the parent"
+            # the same liveness through the view's mass accessor (a derived view over the same row): the
+            # accessor is touched as soon as the view exists, so a re-attachment that leaves it wrapping a
+            # discarded row shows here
+            try:
+                mw = float(getattr(s.chemicals, c).MW)
+                m_view = float(v.imass[c])
+                m_par = float(s.imol[p, c]) * mw
+                if abs(m_view - m_par) > 1e-9 * max(1.0, abs(m_par)):
+                    return (f"the mass accessor of cached view {p!r} shows {m_view} kg/hr of {c} where the parent "
+                            f"holds {m_par} kg/hr")
+                v.imass[c] = (old + 2.0) * mw
+                back = float(s.imol[p, c])
+                s.imol[p, c] = old
+                if abs(back - (old + 2.0)) > 1e-9 * max(1.0, abs(old) + 2.0):
+                    return f"a write through the mass accessor of cached view {p!r} is not visible in the parent"
+            except (AttributeError, KeyError):
+                pass
         return None
 
 
